@@ -1,12 +1,16 @@
 package webtransport
 
 import (
+	"bytes"
 	"encoding/binary"
 	"io"
 	"math"
 
 	"github.com/karagenc/socket.io-go/engine.io/parser"
 )
+
+// Frames up to this size are read into a buffer allocated from the announced length.
+const maxPreallocatedLen = 1 << 16
 
 type clientOpenPacketData struct {
 	SID string `json:"sid"`
@@ -94,6 +98,21 @@ func nextPacket(r io.Reader) (*parser.Packet, error) {
 			expectedLen = int(l)
 			state = ReadPayload
 		case ReadPayload:
+			if lr, ok := r.(*limitedReader); ok && lr.limit > 0 && int64(expectedLen) > lr.limit {
+				// Refuse before reserving memory on the strength of the header alone.
+				return nil, ErrLimitReached
+			}
+			if expectedLen > maxPreallocatedLen {
+				// Grow with the data that actually arrives instead of trusting the header.
+				buf, err := io.ReadAll(io.LimitReader(r, int64(expectedLen)))
+				if err != nil {
+					return nil, err
+				}
+				if len(buf) != expectedLen {
+					return nil, io.ErrUnexpectedEOF
+				}
+				return parser.DecodeWithLen(bytes.NewReader(buf), isBinary, expectedLen)
+			}
 			return parser.DecodeWithLen(r, isBinary, expectedLen)
 		}
 	}
